@@ -492,6 +492,10 @@ class FcpV2Transformer(Transformer):
                 source = f.read()
         except FileNotFoundError as e:
             return error(f"File not found: {pathlib.Path(e.filename).name}")
+        except (OSError, UnicodeDecodeError) as e:
+            return error(
+                f"Cannot read module {filename}: {e}", Token(_get_meta(tree, self))
+            )
 
         if filename in self.parser_context.importing:
             return error(
@@ -521,6 +525,12 @@ class FcpV2Transformer(Transformer):
             fcp = transformer.transform(fcp_ast)
         except VisitError as e:
             return _visit_error(filename, e)
+        except RecursionError:
+            return error(f"{filename.name} is nested too deeply").map_err(
+                lambda err: err.results_in(
+                    f"Failed to import {filename}", Token(_get_meta(tree, self))
+                )
+            )
         finally:
             self.parser_context.importing.pop()
 
